@@ -305,6 +305,7 @@ partial def loop (rc : RunCfg) (hin : IO.FS.Stream) (hout : IO.FS.Stream) : IO U
   | none => hout.putStrLn ("?\tbadline\t-")
   | some c =>
     if c.doc != [] && !wfb c.doc then hout.putStrLn (c.id ++ "\tbaddoc\t-")
+    else if c.expr.length > 20000 then hout.putStrLn (c.id ++ "\tskipped:long\t-")
     else
       let (m, s) := runCase rc c
       hout.putStrLn (c.id ++ "\t" ++ m ++ "\t" ++ s)
